@@ -19,7 +19,7 @@ SEP = " %| "
 # the shell's metacharacter alphabet, plus one plain, one 2-byte and one 4-byte character
 ALPHA = "a '\"$(){}`\\|&;<>#\né\U0001F680"
 WD_FAST = 3000       # ms; a call into brush normally takes ~20 µs
-WD_CONFIRM = 12000
+WD_CONFIRM = 6000
 
 
 # ------------------------------------------------------------------------------------------------
@@ -128,9 +128,9 @@ def feat_heredoc(line):
     return i >= 0 and "\n" in line[i:]
 
 
-def feat_empty_heredoc_tag(line):
-    """`<<` (optionally `-`, blanks) followed by an empty quoted tag: '' or "" """
-    return re.search(r"<<-?[ \t]*(?:''|\"\")", line) is not None
+def feat_heredoc_op(line):
+    """a here-document operator anywhere in the line (the tokenizer's end-of-input handling of here tags)"""
+    return "<<" in line
 
 
 def feat_backquote_escape(line):
@@ -283,7 +283,7 @@ def confirm_hangs(lines):
     def one(l):
         rc, out, err = lib.run_vh(BIN, ["L %s 0" % esc(l)], env={"C19_WATCHDOG_MS": str(WD_CONFIRM)})
         return rc == 3 and "HANG" in err
-    return {l for l, h in zip(lines, lib.pmap(one, lines)) if h}
+    return {l for l, h in zip(lines, lib.pmap(one, lines, workers=min(len(lines), 48))) if h}
 
 
 def known(ctx, clause, why, case):
@@ -306,8 +306,8 @@ def classify(ctx, t, state):
     if t.hang:
         if t.hresp.startswith("DIED"):
             state["viol"](ctx, "harness died on this line: " + t.hresp[:200], case, "property")
-        elif feat_empty_heredoc_tag(line):
-            known(ctx, "heredoc_empty_tag_hang", "the highlighter never returns (tokenizer loops)", case)
+        elif feat_heredoc_op(line):
+            known(ctx, "heredoc_eof_tag_hang", "the highlighter never returns (tokenizer loops)", case)
         else:
             state["viol"](ctx, "the highlighter never returns (watchdog %d ms, confirmed)" % WD_CONFIRM, case, "property")
         return
